@@ -157,6 +157,7 @@ func (s *Search[B]) once() error {
 		wg.Add(1)
 		go func() {
 			defer wg.Done()
+			defer Guard()
 			in, err := s.NewInstance()
 			if err != nil {
 				mu.Lock()
